@@ -46,9 +46,9 @@ template<class W> static inline W w_min(W a,W b){ return a<b? a: b; }
 
 template<class T> struct Tr;
 template<> struct Tr<float>{ typedef long double W; static W u(){ return ldexpl(1.0L,-24); } static W tiny(){ return ldexpl(1.0L,-149); } static W eps(){ return ldexpl(1.0L,-23); }
-	static W pi(){ return 3.14159265358979323846264338327950288L; } static W p2(int e){ return ldexpl(1.0L,e); } static double xtol(){ return std::ldexp(1.0,-52); } };
+	static W pi(){ return 3.14159265358979323846264338327950288L; } static W p2(int e){ return ldexpl(1.0L,e); } };
 template<> struct Tr<double>{ typedef __float128 W; static W u(){ return (W)ldexpl(1.0L,-53); } static W tiny(){ return (W)ldexpl(1.0L,-1074); } static W eps(){ return (W)ldexpl(1.0L,-52); }
-	static W pi(){ static const W p=4*atanq((W)1); return p; } static W p2(int e){ return (W)ldexpl(1.0L,e); } static double xtol(){ return std::ldexp(1.0,-98); } };
+	static W pi(){ static const W p=4*atanq((W)1); return p; } static W p2(int e){ return (W)ldexpl(1.0L,e); } };
 #define TRT typedef typename Tr<T>::W W; const W u=Tr<T>::u(); const W tiny=Tr<T>::tiny(); const W PI=Tr<T>::pi(); (void)u; (void)tiny; (void)PI;
 static const double SF = 2.0; // safety factor applied to every first-order rounding-error count
 
@@ -368,9 +368,10 @@ template<class T> static void run_type(const char* label,Ops o,vf::u64 n){
 		for(int it=0;it<4000;it++){ T x[4],y[4]; g.pair(x,y); T t=g.tval(); int k= it%3? 0: rr.range(-3,3); W nu=1; if(!unit_ok<T>(x,nu)||!unit_ok<T>(y,nu)) continue;
 			Arc<T> A; arc_eval<T>(x,y,+1,t,k,k? KIND_SPIN: KIND_MIX,nu,A); if(A.ill||A.theta>Tr<T>::pi()-W(1e-2)) continue; long double m[4]; arc_mpfr<T>(x,y,+1,t,k,m); judged++;
 			for(int i=0;i<4;i++){ double d=(double)w_abs(A.R[i]-(W)m[i]); if(d>worst) worst=d; } }
-		char b[128]; snprintf(b,sizeof b,"%d samples, max |W - MPFR| = %.3g (limit %.3g; MPFR result read back as long double)",judged,worst,Tr<T>::xtol()*64); vf::note(std::string("reference-crosscheck-")+label,b);
-		// long double read-back limits the comparison to 2^-64 relative; the float oracle (long double) is itself accurate to ~2^-60 here
-		double lim= std::is_same<T,float>::value? std::ldexp(1.0,-52): std::ldexp(1.0,-58);
+		// the MPFR result is read back as long double (2^-64 relative); the W evaluation goes through theta = 2 atan2(..) and sin(t phi)/sin(theta),
+		// up to ~10^3 W-ulps for the worst conditioned samples that are still judged: limits 2^-44 (long double oracle; float tolerance >= 2^-24) and 2^-58 (read-back limited, __float128 oracle)
+		double lim= std::is_same<T,float>::value? std::ldexp(1.0,-44): std::ldexp(1.0,-58);
+		char b[160]; snprintf(b,sizeof b,"%d samples, max |W - MPFR(256 bit)| = %.3g, limit %.3g",judged,worst,lim); vf::note(std::string("reference-crosscheck-")+label,b);
 		if(!(worst<=lim)||judged<1000){ fprintf(stderr,"C13: reference cross-check failed for %s: %s\n",label,b); exit(2); }
 	}
 	vf::parallel(label,[&](int t,int TT,vf::Ctx& c){ Gen<T> g(c.rng); vf::Rng& r=c.rng;
